@@ -79,4 +79,4 @@ MANIFEST = dict(
                "checked by the direct oracle only.",
     technique="Lean 4 proof (induction over passes/iterations, refinement of substitution) + pass-by-pass model/implementation correspondence + direct solution oracle",
 )
-READY = False
+READY = True
